@@ -31,6 +31,7 @@ CHECK = {
         # the grain turn loop (grain_pid.go receive/runTurn/finishOrReclaim): the C31 scenario, which asserts that no two OnReceive overlap
         {"fn": P + "vC31_turns", "replay": "model-only", "cover_optional": ("pending",), "opts": {"substitute": SUB_GRAIN, "feasibility": False}},
     ],
+    "opts_thorough": {"rounds": 5},
     "opts": {"rounds": 3, "unwind": 4, "unwind_mode": "assume", "substitute": SUB},
     "stop": list(SUB_RESTART.keys()) + list(SUB_GRAIN.keys()),
     "timeout_ms": {"quick": 600000, "thorough": 1800000},
